@@ -11,7 +11,6 @@ import (
 	"fmt"
 	"net"
 	"net/url"
-	"strings"
 
 	"github.com/saucelabs/forwarder/log"
 )
@@ -45,8 +44,9 @@ func NewCredentialsMatcher(credentials []*HostPortUser, log log.StructuredLogger
 			return nil, withRowInfo(err)
 		}
 
-		// Host names are case-insensitive.
-		hpu.Host = strings.ToLower(hpu.Host)
+		// Host names are case-insensitive. (ASCII letters only: under Unicode rules U+0130 becomes "i",
+		// and a different host would be taken for this one.)
+		hpu.Host = lowerASCII(hpu.Host)
 
 		switch {
 		case hpu.Host == "*" && hpu.Port == "0":
@@ -110,7 +110,7 @@ func (m *CredentialsMatcher) Match(hostport string) *url.Userinfo {
 		return nil
 	}
 
-	hostport = strings.ToLower(hostport)
+	hostport = lowerASCII(hostport)
 
 	if u, ok := m.hostport[hostport]; ok {
 		m.log.Debug(hostport)
